@@ -2,8 +2,8 @@ package main
 
 import (
 	"bufio"
-	"fmt"
 	"encoding/json"
+	"fmt"
 	"os"
 	"path/filepath"
 	"regexp"
@@ -206,6 +206,7 @@ func unevenExecs(sc *Scenario, name string) bool {
 // sees when it parses ../main_test.go)
 var driverFuncs = []string{"TestMain", "itoa", "captureStdout", "run", "TestA", "TestAB", "TestA1", "TestB", "TestB2", "TestC",
 	"TestZ", "Test1", "TestA_x", "TestBulk", "helper1", "helper2", "helper3"}
+
 // (other_test.go declares otherFileHelper and an init; it is not the file isFileSkipped parses)
 
 func codeRuleProtectsFile(sc *Scenario, absPath, run string) bool {
